@@ -83,6 +83,31 @@ KEYED_TYPES = ('toml_edit::table::Table', 'toml_edit::inline_table::InlineTable'
 NAME_PASSTHROUGH = {'as_str', 'as_ref', 'clone', 'to_owned', 'to_string', 'into', 'borrow', 'deref', 'as_deref'}
 
 
+def r8_attach_model(rep, facts):
+    R = rep.rule('C09/R8', 'the table collected under a header is attached without overwriting anything: finalize_table evaluated on a model parser state — the root section '
+                 'becomes the root; `[a.b]` is inserted where nothing is, takes the place of a header-implied placeholder, and is refused over an explicit table or a value; '
+                 '`[[a.b]]` is appended after the elements that are there and refused over anything that is no array of tables', floor=7)
+    from .shared import finalize_model
+    d = ST + 'finalize_table'
+    loc = facts.loc(facts.body(d)) if facts.has_body(d) else ''
+    want = {'the root section': lambda o: o['ok'] and o['root'] == 'current',
+            '[a.b] with nothing under the name': lambda o: o['ok'] and o['inserted'] == ['current'],
+            '[a.b] with a header-implied table under the name': lambda o: o['ok'] and o['entry'] == 'current' and not o['inserted'],
+            '[a.b] with an explicit table under the name': lambda o: not o['ok'] and o['entry'] == 'other',
+            '[a.b] with a value under the name': lambda o: not o['ok'],
+            '[[a.b]] with an array of tables under the name': lambda o: o['ok'] and o.get('elements') == ['first', 'current'],
+            '[[a.b]] with a table under the name': lambda o: not o['ok'] and o['entry'] == 'other'}
+    for case, out in finalize_model(facts):
+        if isinstance(out, str):
+            (rep.incomplete if out.startswith('unanalysable') else rep.bad)(R, case, f'finalize_table, {case}: {out}', loc)
+            continue
+        if case not in want:
+            continue
+        rep.check(R, case, want[case](out), f'{"attached" if out["ok"] else "refused"}',
+                  f'finalize_table, {case}: {"accepted" if out["ok"] else "refused"} (root holds `{out["root"]}`, inserted {out["inserted"]}, the entry holds `{out["entry"]}`'
+                  + (f', elements {out["elements"]}' if 'elements' in out else '') + '): a definition is overwritten, merged or lost, or a permitted one refused', loc)
+
+
 def r7_one_name(rep, facts):
     R = rep.rule('C09/R7', 'a key has one identity, its decoded name: every lookup, removal and entry of the parser\'s semantic layer is keyed by the Key itself '
                  '(whose Hash / Eq / Ord / Borrow read nothing but `get()`) or by a string that comes from `Key::get()`; a lookup by the written form '
@@ -632,6 +657,7 @@ def rules(rep, facts):
     r4_plumbing(rep, facts)
     r6_flag_targets(rep, facts)
     r6b_opened_table_flags(rep, facts)
+    r8_attach_model(rep, facts)
     r7_one_name(rep, facts)
 
 
